@@ -26,6 +26,7 @@ const (
 // HTTPRecord is one outbound request as seen by the transport.
 type HTTPRecord struct {
 	Step     int
+	DoneStep int // scheduler step at which the caller got its answer
 	At       time.Duration
 	From     string // label of the calling goroutine
 	Method   string
@@ -107,6 +108,7 @@ func (h *HTTP) RoundTrip(req *http.Request) (*http.Response, error) {
 			rec.Status = resp.StatusCode
 			rec.Location = resp.Header.Get("Location")
 		}
+		rec.DoneStep = h.S.Steps
 		h.mu.Lock()
 		h.Log = append(h.Log, rec)
 		h.mu.Unlock()
